@@ -60,6 +60,13 @@ def load_corpus(prop: str) -> List[Dict[str, Any]]:
 
 
 def build_model(ck: Check) -> bool:
+    import shutil
+    import vlib
+    if any(b["what"].startswith("translator") for b in ck.broken_obligations):
+        # the translation of THIS tree failed: gen/GenCli.v may be a stale translation of another tree (a mirror
+        # workspace is reused between scratch checkouts); the last accepted translation stands in for the model
+        shutil.copy(os.path.join(vlib.COQ, "ref", "GenCli.v"), os.path.join(vlib.COQ, "gen", "GenCli.v"))
+        ck.coverage["tie"]["model_from_reference_translation"] = True
     ok, log = coq_build(list(MODEL_VO))
     if not ok:
         ck.broken(Broken("the executable CLI/lint model (theories/CliCases.vo) does not build against the "
